@@ -26,7 +26,6 @@ Definition zml_eqb (a b : zml) : bool := match a, b with LZ, LZ | LM, LM => true
 
 Definition wbody_eqb (a b : wbody) : bool :=
   match a, b with
-  | W0 x, W0 y => tuple_eqb x y
   | W1 x, W1 y => list_eqb tuple_eqb x y
   | W2 x, W2 y => list_eqb (list_eqb tuple_eqb) x y
   | W3 x, W3 y => list_eqb (list_eqb (list_eqb tuple_eqb)) x y
